@@ -86,8 +86,10 @@ def draw_cfg(rng, variant, nmax, rf_nmax=None, valid=True):
     if variant == "SingleMemory":
         return {"cls": "SingleMemory", "N": N, "p": {}}
     if variant in ("SingleDiskCopy", "SingleDiskMove"):
-        return {"cls": "SingleDisk", "N": N,
-                "p": {"move": variant == "SingleDiskMove"}}
+        move = variant == "SingleDiskMove"
+        if move and rng.random() < 0.25:
+            move = "np"         # numpy.bool_(True)
+        return {"cls": "SingleDisk", "N": N, "p": {"move": move}}
     if variant in ("MultistageMax", "MultistageRev"):
         traj = "maximum" if variant == "MultistageMax" else "revolve"
         u = rng.random()
